@@ -279,7 +279,7 @@ func runC14(c *Ctx) {
 	}
 
 	// ---------------------------------------------------------------- R3
-	c.rule("R3", "the helper cannot get stuck: result handed over in a select with done (closed by defer); fixed 5 s timeout context", 3)
+	c.rule("R3", "the helper cannot get stuck: result handed over in a select with done (closed by defer); fixed 5 s timeout context", 4)
 	{
 		var doneID ssa.Value
 		eachInstr(f, func(in ssa.Instruction) {
@@ -289,6 +289,7 @@ func runC14(c *Ctx) {
 		})
 		c.check(doneID != nil, "done-closed-by-defer", f.Pos(), "the caller closes the done channel by defer", "the caller does not close a done channel on return: helpers finishing later block forever on their send")
 		good := false
+		extraCase := false
 		nSend := 0
 		eachInstr(helper, func(in ssa.Instruction) {
 			switch x := in.(type) {
@@ -307,9 +308,15 @@ func runC14(c *Ctx) {
 				if hasSend && hasDone && x.Blocking {
 					good = true
 				}
+				// nothing else may end the hand-over: a third case (e.g. the helper's own expired 5 s context) drops
+				// the result, the collector waits for a report that never comes (round 12)
+				if hasSend && len(x.States) != 2 {
+					extraCase = true
+				}
 			}
 		})
 		c.check(good && nSend == 0, "send-or-done", helper.Pos(), "the helper's only send is a select case next to <-done", "the helper sends its result without selecting on the caller's done channel: when the caller already returned, the goroutine leaks")
+		c.check(!extraCase, "send-or-done-only", helper.Pos(), "the hand-over select has exactly the send and the done case", "the helper's hand-over select has a case besides the send and <-done (or is non-blocking): a result can be dropped while the collector still waits for it — the call then ends with the caller's context instead of the last reply / 'all upstream servers failed'")
 		// context
 		ctxOK := false
 		if upCall != nil {
@@ -607,7 +614,7 @@ func runC14(c *Ctx) {
 	}
 
 	// ---------------------------------------------------------------- R7
-	c.rule("R10", "the collecting loop ends only by accepting a result or because the caller's context ended; the per-upstream wrapper sends the query once, under its caller's context; each helper has its own upstream variable", 4)
+	c.rule("R10", "the collecting loop ends only by accepting a result or because the caller's context ended; the per-upstream wrapper sends the query once, under its caller's context; each helper has its own upstream variable", 5)
 	{
 		body := succOnTruth(collect.iff, true)
 		for _, r := range returnsOf(f) {
@@ -650,6 +657,27 @@ func runC14(c *Ctx) {
 				if ci.Call.Args[1] != ssa.Value(wf.Params[2]) {
 					good, why = false, "the exchange sends "+exprStr(ci.Call.Args[1])+", not the bytes it was given"
 				}
+			}
+			// what the wrapper returns is what the upstream returned (round 12: a "does the reply echo the question" test
+			// turned legal replies — empty question section, lower-cased name — into errors)
+			if len(calls) == 1 {
+				same := true
+				nRet := 0
+				for _, ret := range returnsOf(wf) {
+					rv := returnedValues(ret)
+					if len(rv) != 2 {
+						continue
+					}
+					nRet++
+					for i := 0; i < 2; i++ {
+						ex, ok := rv[i].(*ssa.Extract)
+						if !ok || ex.Tuple != ssa.Value(calls[0]) || ex.Index != i {
+							same = false
+						}
+					}
+				}
+				c.check(same && nRet > 0, "wrapper-returns-upstream-result", wf.Pos(), "the wrapper returns the upstream's reply and error unchanged",
+					"the per-upstream wrapper does not return exactly what the upstream's ExchangeContext returned: a reply is replaced or turned into an error before the collecting loop sees it")
 			}
 			c.check(good, "wrapper-sends-once", wf.Pos(), "the wrapper forwards the query once, under the helper's context, unchanged", "the per-upstream wrapper does not forward exactly one exchange under its caller's context ("+why+"): the helper outlives the fixed 5 s bound or the query is sent twice")
 		}
